@@ -4,7 +4,7 @@ from common import *
 
 LENS = 'crash'
 TRACE_MODULE = 'Trace_IggyCrash'
-FAMILIES = {'C04': ['crash']}
+FAMILIES = {'C04': ['crash'], 'C03': ['graceful']}
 MSG = 61
 
 
@@ -47,6 +47,18 @@ def build_scenarios(families, tier, wd, seed):
                     scenarios.append(dict(id=f'crash-{n}', family='crash', seed=rnd.randrange(1 << 30), stride=1,
                                           cfg=dict(save_threshold=thr, segment_bytes=seg, cache='off', confirmation=conf, fsync=fsync),
                                           steps=workload(rnd, 9 if tier == 'quick' else 16)))
+    if 'graceful' in families:
+        # C03: only the image left by the graceful shutdown that ends the workload is recovered - everything accepted must be there
+        scenarios = []
+        for conf in ('no_wait', 'wait'):
+            for fsync in (False, True):
+                for thr, seg in ((1, 0), (2, 5 * MSG), (3, 3 * MSG), (1000, 4 * MSG), (1, 2 * MSG), (1000, 0)):
+                    for rep in range(2 if tier == 'quick' else 12):
+                        n += 1
+                        scenarios.append(dict(id=f'graceful-{n}', family='graceful', seed=rnd.randrange(1 << 30), graceful_only=True,
+                                              cfg=dict(save_threshold=thr, segment_bytes=seg, cache='off', confirmation=conf, fsync=fsync),
+                                              steps=workload(rnd, rnd.choice([3, 6, 9]) if tier == 'quick' else 16)))
+        return scenarios, {'graceful': dict(workloads=len(scenarios))}
     return scenarios, {'crash': dict(workloads=len(scenarios))}
 
 
@@ -55,15 +67,17 @@ def shard(scenarios, nshards):
 
 
 def attribute(prop, scn, events_bad):
-    return [(i, ev, lab) for i, (ev, labels) in sorted(events_bad.items()) for lab in labels]
+    return [(i, ev, lab) for i, (ev, labels) in sorted(events_bad.items()) for lab in labels if lab[0].startswith((prop + '.', 'X.'))]
 
 
 def nontrivial(prop, scn, evs):
+    if prop == 'C03':
+        return any(e['ev'] == 'crash' and e['at'] == 'graceful' and e['start'] == 'ok' and len(e.get('sent', [])) > 0 for e in evs)
     # crash images whose recovery differs from the final state: some image recovered fewer messages than were sent in the end
     tot = max((len(e['sent']) for e in evs if e['ev'] == 'crash'), default=0)
     return any(e['ev'] == 'crash' and e['start'] == 'ok' and e.get('topic') and len(e.get('read', [])) < tot for e in evs)
 
-RULES = {'C04': 'workloads with at least one crash image that recovers to a strictly shorter log than the final one'}
+RULES = {'C03': 'workloads that accepted at least one message before the graceful shutdown', 'C04': 'workloads with at least one crash image that recovers to a strictly shorter log than the final one'}
 ASSUMPTIONS = ['process-death model: what reached the file survives (power loss and reordering of writes in the page cache are out of scope)',
                'crash points: after every log append, index append, consumer-offset write, state-log append and segment creation reported by the guarded file-mutation hook; torn variants of the last write: cut by 1 byte, to half / 1 byte / 0 bytes of its growth',
                '"write completed under wait-confirmation" = the messages the live partition reported as saved after the last call that had returned',
